@@ -91,11 +91,11 @@ impl<'t> Int<'t> {
     /// is equivalent to call `add_ast`.
     /// Otherwise could lead to unexpected interpreter flow.
     pub unsafe fn append_int(mut self, mut int: Self) -> Self {
-        self.m_op = int.m_op;
         self.q_reg.append(&mut int.q_reg);
         self.c_reg.append(&mut int.c_reg);
         self.q_ops.append(&mut int.q_ops);
         self.macros.extend(int.macros.clone());
+        self.asts.append(&mut int.asts);
         self
     }
 
